@@ -467,3 +467,28 @@ func loopsInSource(n ast.Node) []ast.Stmt {
 	})
 	return out
 }
+
+// contractParamNames: parameter names used by a no-body contract (interface method: the names of the
+// interface method's parameters; function-parameter contract: arg0, arg1, ...).
+func (e *Engine) contractParamNames(key string, fn *ssa.Function) []string {
+	parts := strings.Split(key, ".")
+	if len(parts) == 3 {
+		if tp, ok := e.tpkgs[parts[0]]; ok {
+			if obj := tp.Types.Scope().Lookup(parts[1]); obj != nil {
+				if it, ok := obj.Type().Underlying().(*types.Interface); ok {
+					for i := 0; i < it.NumMethods(); i++ {
+						if it.Method(i).Name() == parts[2] {
+							sig := it.Method(i).Type().(*types.Signature)
+							var names []string
+							for k := 0; k < sig.Params().Len(); k++ {
+								names = append(names, sig.Params().At(k).Name())
+							}
+							return names
+						}
+					}
+				}
+			}
+		}
+	}
+	return nil
+}
